@@ -10,6 +10,20 @@ the call.  Sanity check by mutation of this tie (scratch copies):
 stored-write set, theorem `c18_facet_counts_writes_nothing`): the model answers with the dictionary it computes from
 the reverse entries it reads - only if its write log and allocator did not move - and the real `counts` must give the same.
   T7  `FacetIndex.counts` omits only the exact `omit_facets` entries, not their ancestors          caught
+Reads that overlap in time, and query objects the caller still holds (builder wt_strong7):
+  `read isort`: 2-3 FieldIndex.sort results (lazy generators; all sort types forced and auto-selected, the same
+  request again 36%) in flight together - read alternately, one id first and the rest after another sort, in
+  reverse creation order - each compared with the same sort read on its own (a read's answer must not depend on
+  another read being half done).  `read tree0/tree1`: 35% of the trees are negation shapes
+  `Not(And(Not(Or(..)), x, ..))` / `Not(Or(Not(And(..)), x, ..))` (inner negated operator first 82%, doubly negated
+  operands) - `Not.negate()` hands back the caller's OWN child object; EVERY query object the caller constructed
+  (also operators a same-type parent flattened away) is snapshot before/after, also when the execution raises, and
+  up to 12 And/Or/Not sub-queries are executed on their own before and after the enclosing query.
+  seeded C18_G  scan_forward keeps one volatile working set on the index                 MISSED before, now caught
+  seeded C18_H  BoolOp.__init__ adopts the .queries list of a leftmost same-type operand MISSED before, now caught
+  M18i  Not._optimize optimises the operands of `self.query.negate()` in place when it is an And/Or (only bites
+        when negate() returned the caller's own operator: double negation)                               caught
+  M07m  FieldIndex._timsort keeps its missing-docids list on the index                    caught (isort; also C07, C11)
 """
 import importlib
 
@@ -35,11 +49,15 @@ RULE = ("sessions on a catalog with field, keyword, facet, Okapi-text and cosine
         "applyX and via query objects executed with and without optimisation, And/Or/Not trees, text apply / "
         "check_query / parse_query with unknown words, globs and phrases, FieldIndex.sort with every sort_type x "
         "reverse x limit x raise_unsortable on caller-owned sets/lists and on containers the index itself handed "
-        "out (not_indexed(), docids(), applyEq/applyNotEq results), text relevance sort, counts, ResultSet "
+        "out (not_indexed(), docids(), applyEq/applyNotEq results), 2-3 field sorts in flight together read "
+        "alternately and each compared with the same sort alone (5% of the reads; quick seed 0: 511 reads, 278 with "
+        "two possible forward scans), text relevance sort, counts, ResultSet "
         "first/one/all/len/intersect/sort, CatalogQuery.search/query, all enumeration and statistics methods. "
         "Every read is executed twice; before and after, the complete observable state of every index, both "
         "lexicons' vocabularies, the caller's collection and a structural+identity snapshot of the query object "
-        "are compared. non-trivial = at least 8 distinct reads on a non-empty catalog")
+        "are compared; trees: 35% negation shapes Not(And/Or(Not(Or/And(..)), ..)) (quick seed 0: 332 of 960 trees, "
+        "inner negated operator as first operand 271), every constructed query object snapshot, And/Or/Not "
+        "sub-queries executed alone before and after. non-trivial = at least 8 distinct reads on a non-empty catalog")
 LEVEL_TEXT = ("Lean 4: (1) reads are functions State -> Args -> Result in every pure model (purity by type); (2) the "
               "provenance table - every in-place write on a read path (TextIndex.apply rescaling, scan_forward "
               "removal, N-best merging) targets a freshly allocated container, for Okapi unconditionally and for "
